@@ -1045,6 +1045,8 @@ class Engine:
             init = f.lookup("__init__")
             if init is not None: self.call_func(init, [obj] + list(args), kwargs)
             return obj
+        if isinstance(f, Obj) and isinstance(f.cls, ClassV) and f.cls.lookup("__call__") is not None:
+            return self.call(Bound(f, f.cls.lookup("__call__")), args, kwargs, n)
         if f in (int, str, bytes): raise Unsupported("type call")
         raise Unsupported(f"call {f!r}")
 
